@@ -16,6 +16,13 @@ import "verif/internal/drv"
 //   - maskwrite: generated Write over TBinaryProtocol/TMemoryBuffer → hex, err;
 //   - maskread: generated Read of the given bytes under the mask → value, err.
 //
+//   - maskhistory: {type, value, steps: [{op: write|read, paths, black, nomask, hex}]}
+//     builds ONE object and performs the steps on it in order, each under its
+//     own mask (attached to the root just before the step): write → hex, err;
+//     read (of the given bytes, into the same object) → err, left, value.
+//     The result is `steps`, one entry per performed step (it stops after a
+//     step that fails).
+//
 // Panics of the generated code are reported as `panic`.
 const maskSrc = `package vdriver
 
@@ -148,6 +155,73 @@ func init() {
 		} else {
 			resp["err"] = nil
 		}
+		return
+	}
+	Hooks["maskhistory"] = func(req map[string]interface{}) (resp map[string]interface{}) {
+		resp = map[string]interface{}{}
+		k, _ := req["type"].(string)
+		e := Lookup(k)
+		if e == nil {
+			resp["harness"] = "unknown type " + k
+			return
+		}
+		obj, err := Decode(req["value"], e.Type())
+		if err != nil {
+			resp["harness"] = err.Error()
+			return
+		}
+		steps, _ := req["steps"].([]interface{})
+		out := []interface{}{}
+		for _, sr := range steps {
+			step, _ := sr.(map[string]interface{})
+			r := map[string]interface{}{}
+			func() {
+				defer func() {
+					if x := recover(); x != nil {
+						r["panic"] = fmt.Sprint(x)
+					}
+				}()
+				if !xmaskAttach(obj, step, r) {
+					return
+				}
+				buf := thrift.NewTMemoryBuffer()
+				prot := thrift.NewTBinaryProtocol(buf, true, true)
+				if step["op"] == "read" {
+					hx, _ := step["hex"].(string)
+					b, _ := hex.DecodeString(hx)
+					buf.Write(b)
+					rerr := obj.Interface().(interface {
+						Read(iprot thrift.TProtocol) error
+					}).Read(prot)
+					if rerr != nil {
+						r["err"] = rerr.Error()
+					} else {
+						r["err"] = nil
+						r["left"] = buf.Len()
+					}
+					r["value"] = Dump(obj)
+					return
+				}
+				werr := obj.Interface().(interface {
+					Write(oprot thrift.TProtocol) error
+				}).Write(prot)
+				r["hex"] = hex.EncodeToString(buf.Bytes())
+				if werr != nil {
+					r["err"] = werr.Error()
+				} else {
+					r["err"] = nil
+				}
+			}()
+			out = append(out, r)
+			if h, bad := r["harness"]; bad {
+				resp["harness"] = h
+				return
+			}
+			if r["panic"] != nil || r["err"] != nil || r["maskerr"] != nil || r["maskpanic"] != nil {
+				break
+			}
+		}
+		resp["steps"] = out
 		return
 	}
 	Hooks["maskread"] = func(req map[string]interface{}) (resp map[string]interface{}) {
